@@ -150,7 +150,7 @@ def queries(ctx, sc):
 
 
 def make_cases(ctx, sc, impls, sections, queries_json, keys, select=None, walks=0, walk_len=8, cores=1,
-               max_edge_paths=None, rng=None, impl_caps=None, end_walks=None, focused=0):
+               max_edge_paths=None, rng=None, impl_caps=None, end_walks=None, focused=0, frames=("",)):
     cases = []
     ids = sc.ids()
     base = sc.base()
@@ -195,14 +195,17 @@ def make_cases(ctx, sc, impls, sections, queries_json, keys, select=None, walks=
             if impl == "tagsoverlay":
                 # MutableTagsOverlayWorld documents that it does not update the search index
                 secs = [x for x in sections if x != "search"]
-            cases.append({"id": len(cases), "impl": impl, "base": base, "keys": keys, "ids": ids,
-                          "queries": queries_json, "steps": [sc.step(e) for e in p], "sections": secs,
-                          "cores": cores, "scenario": sc.n})
+            for fi, frame in enumerate(frames):
+                if fi > 0 and (len(cases) % 3):      # the other frames: every third path
+                    continue
+                cases.append({"id": len(cases), "impl": impl, "base": base, "keys": keys, "ids": ids,
+                              "queries": queries_json, "steps": [sc.step(e) for e in p], "sections": secs,
+                              "cores": cores, "scenario": sc.n, "frame": frame})
     return cases, len(paths)
 
 
 def run_family(ctx, prop, scenarios, impls, sections, select=None, meta_rule="", level="model_checking",
-               assumptions=None, finish=True, max_paths=None, impl_caps=None, end_walks=None, focused=None):
+               assumptions=None, finish=True, max_paths=None, impl_caps=None, end_walks=None, focused=None, frames=("",)):
     """Common body of the MutableWorld family checks.  focused=(quick cap, thorough cap) per feature, see focused_paths."""
     binary = ctx.go_build("vh-world")
     rng = random.Random(ctx.seed * 7919 + 13)
@@ -223,7 +226,7 @@ def run_family(ctx, prop, scenarios, impls, sections, select=None, meta_rule="",
                                    max_edge_paths=(max_paths or {}).get(n, ctx.pick(900, None)) if ctx.quick else None,
                                    impl_caps=dict(DEFAULT_IMPL_CAPS, **((impl_caps or {}).get(n) or {})) if ctx.quick else None,
                                    end_walks=(end_walks[0] if ctx.quick else end_walks[1]) if end_walks else None,
-                                   focused=(focused[0] if ctx.quick else focused[1]) if focused else 0)
+                                   focused=(focused[0] if ctx.quick else focused[1]) if focused else 0, frames=frames)
         total_edges += len(sc.edges)
         total_paths += npaths
         if cases:
@@ -233,7 +236,7 @@ def run_family(ctx, prop, scenarios, impls, sections, select=None, meta_rule="",
         for v in vs:
             ctx.evaluations += 1
             c = cases[v["id"]]
-            ctx.distinct_cases.add(canon([n, c["impl"], [s["ev"] for s in c["steps"]]]))
+            ctx.distinct_cases.add(canon([n, c["impl"], c.get("frame", ""), [s["ev"] for s in c["steps"]]]))
             for k, cnt in (v.get("stats") or {}).items():
                 ctx.extra_cov[k] = ctx.extra_cov.get(k, 0) + cnt
             if v.get("ok"):
@@ -241,10 +244,10 @@ def run_family(ctx, prop, scenarios, impls, sections, select=None, meta_rule="",
                     cut_examples.append(v.get("msg", ""))
                 continue
             ms = ((v.get("obs") or {}).get("mismatches")) if isinstance(v.get("obs"), dict) else None
-            rep = {"scenario": n, "impl": c["impl"], "ops": [s["ev"] for s in c["steps"]]}
+            rep = {"scenario": n, "impl": c["impl"], "frame": c.get("frame", ""), "ops": [s["ev"] for s in c["steps"]]}
             if ms:
                 for m in ms:
-                    ctx.fail(m["key"], "scenario %d %s: step %d [%s] %s" % (n, c["impl"], m["step"], m["section"], m["msg"]),
+                    ctx.fail(m["key"], "scenario %d %s%s: step %d [%s] %s" % (n, c["impl"], (" frame=" + c["frame"]) if c.get("frame") else "", m["step"], m["section"], m["msg"]),
                              dict(rep, mismatch=m))
             else:
                 ctx.fail(v.get("key") or "unknown", "scenario %d %s: %s" % (n, c["impl"], v.get("msg", "")), dict(rep, verdict=v))
